@@ -182,7 +182,11 @@ def pearson(X, Y=None):
 
 def _check_array(arr, dtype=float, force_sparse=False):
     if force_sparse or issparse(arr):
-        return csr_matrix(arr, copy=False, dtype=dtype)
+        # a dtype conversion copies the data but shares the index arrays with
+        # `arr`; SciPy routines that sort indices in place would then reorder
+        # the caller's indices without its data, so copy everything.
+        copy = issparse(arr) and arr.dtype != np.dtype(dtype)
+        return csr_matrix(arr, copy=copy, dtype=dtype)
     else:
         return arr.astype(dtype, copy=False)
 
